@@ -94,7 +94,10 @@ def directed(mon):
         mon.count("batch_gt_active_runs")
     # budget-terminated runs: budget hit exactly and overshot, integer and fractional costs
     for variant, costs, budget, batch in (("PartialGP-rect", [1.0, 2.0], 3.0, 1), ("PartialGP-ell", [1.0, 1.0], 4.0, 2),
-                                          ("PartialGP-rect", [1.0, 1.5], 3.2, 1), ("PartialGP-rect", [2.0, 1.0], 6.0, 3)):
+                                          ("PartialGP-rect", [1.0, 1.5], 3.2, 1), ("PartialGP-rect", [2.0, 1.0], 6.0, 3),
+                                          # a reachable total a few 1e-6 (relative) BELOW the budget: not yet spent (seeded/W02)
+                                          ("PartialGP-rect", [1.0, 1.0], 4.00003, 1), ("DecoupledGP", [1.0, 1.0], 6.00004, 1),
+                                          ("PartialGP-ell", [1.0, 2.0], 5.00001, 1), ("DecoupledGP", [0.5, 0.25], 2.000015, 2)):
         case, order = runs.make_case(rng, variant, m=2, K=6, cone_families=["orthant"], costs=costs, budget=budget, batch=batch,
                                      contraction=1.0, ds_family="tight")
         case["max_rounds"] = 40
